@@ -29,6 +29,47 @@ class Boom(Exception):
     """The caller's own exception, raised inside a squash_changes block."""
 
 
+class Abandon(Exception):
+    """Not raised inside the block: marks a block whose context manager is entered by hand
+    and then simply dropped (never exited) and garbage-collected."""
+
+
+class DictShim:
+    """Harness-side view of a REAL dict handed to the trie as its database (no recording, no
+    subclass: `type(db) is dict`)."""
+
+    def __init__(self):
+        self.d = {}
+        self._hidden = {}
+        self.label = None
+        self.checkers = []
+        self.pending_trace_violation = None
+        self.events = []
+        self.writes = self.reads = self.deletes = 0
+
+    def raw(self):
+        return self.d
+
+    def snapshot(self):
+        return dict(self.d)
+
+    def reset_counts(self):
+        pass
+
+    def hide(self, keys):
+        for k in keys:
+            if k in self.d:
+                self._hidden[k] = self.d.pop(k)
+
+    def supply(self, key):
+        if key in self._hidden:
+            self.d[key] = self._hidden.pop(key)
+
+    @property
+    def hidden(self):
+        return set(self._hidden)
+
+
 class BoomBase(BaseException):
     """A caller exception that is not an Exception (like KeyboardInterrupt, SystemExit,
     GeneratorExit, asyncio.CancelledError): leaving the block by it is still 'left by an
@@ -36,7 +77,7 @@ class BoomBase(BaseException):
 
 
 # ways a caller can leave a with-block exceptionally; index = optional 4th field of a batch op
-ABORT_EXC = [Boom, BoomBase, KeyboardInterrupt, GeneratorExit]
+ABORT_EXC = [Boom, BoomBase, KeyboardInterrupt, GeneratorExit, Abandon]
 ALL_ABORTS = tuple(ABORT_EXC)
 
 
@@ -175,6 +216,7 @@ def gen_history(rnd, nops, prune=None, batch_p=0.25, kind=None, abort_p=0.35, un
         "ops": ops,
         "universe": universe.kind,
         "in_handler": rnd.random() < 0.25,
+        "db": "dict" if rnd.random() < 0.15 else "recording",
     }
 
 
@@ -267,8 +309,13 @@ class Runner:
         self.case = case
         self.ctx = ctx
         self.prune = case["prune"]
-        self.db = RecordingDB()
-        self.trie = HexaryTrie(self.db, prune=self.prune)
+        if case.get("db") == "dict":
+            self.db = DictShim()
+            self.trie = HexaryTrie(self.db.d, prune=self.prune)
+            ctx.count("histories_over_a_real_dict")
+        else:
+            self.db = RecordingDB()
+            self.trie = HexaryTrie(self.db, prune=self.prune)
         self.model = {}
         self.rnd = random.Random(case.get("pseed", 0))
         self.universe = None
@@ -340,7 +387,26 @@ class Runner:
         state = {"final_root": None}
         self.before_batch(op)
 
+        def abandoned():
+            # enter by hand, work, then drop the context manager without ever exiting it
+            import gc
+
+            hold = [self.trie.squash_changes()]
+            hold.append(hold[0].__enter__())
+            self.in_batch = True
+            for i, o in enumerate(sub):
+                if abort == i:
+                    break
+                apply_plain(hold[1], bmodel, o)
+                self.after_batch_op(hold[1], bmodel, o)
+            del hold[:]
+            gc.collect()
+            self.ctx.count("batch_abandoned_unexited")
+            raise Abandon()
+
         def block():
+            if abort is not None and exc is Abandon:
+                return abandoned()
             with self.trie.squash_changes() as b:
                 self.in_batch = True
                 for i, o in enumerate(sub):
